@@ -167,3 +167,10 @@ Proof.
   exact (conj frag_sum_per_row (conj frag_atanh (conj frag_expln (conj frag_squash_update frag_gsde_squash_update)))).
 Qed.
 Print Assumptions C14_fragments.
+
+(* the reparametrised sample mean + noise * exp(log_std): its log-probability depends on the noise only *)
+Theorem C14_gauss_rsample_logprob : forall p noise, length noise = length p ->
+  gauss_logprob p (gauss_rsample p noise)
+  = sumR (map2 (fun ml e => - e ^ 2 / 2 - snd ml - ln (sqrt (2 * PI))) p noise).
+Proof. exact gauss_logprob_rsample. Qed.
+Print Assumptions C14_gauss_rsample_logprob.
